@@ -5,6 +5,7 @@
 -/
 import SparseV.Lemmas.DokSet
 import SparseV.Props.C02
+import SparseV.Lemmas.Gen.Dok
 namespace SparseV
 namespace Dok
 open Spec
@@ -170,35 +171,18 @@ theorem boundsOKAll_of_slicesOK (bounds : Option Int → Option Int → Option I
             subst h1
             exact ⟨hok.1, ih ds xs h2 hok.2⟩
 
-/-- `DOK._setitem`'s slice bounds written by hand (both branches read a missing part as `None`, never by
-truthiness): the reference the generated `Gen.dokSliceBounds` is compared with (`gen_is_fixed`).  Until
-/repo commit 5f937a6 the negative-step branch read `ind.start or self.shape[i] - 1`, which took a start
-of 0 for missing, and the two definitions differed. -/
-def dokSliceBoundsFixed (istart istop istep : Option Int) (dim : Int) : Int × Int × Int :=
-  let step : Int := (match istep with | none => 1 | some s => s)
-  if step > 0 then
-    let start : Int := max (match istart with | none => 0 | some s => s) 0
-    let stop : Int := min (match istop with | none => dim | some s => s) dim
-    if start > stop then (stop, stop, step) else (start, stop, step)
-  else
-    let start : Int := min (match istart with | none => dim - 1 | some s => s) (dim - 1)
-    let stop : Int := max (match istop with | none => -1 | some s => s) (-1)
-    if start < stop then (stop, stop, step) else (start, stop, step)
-
 /-- re-clipping a clipped slice changes nothing: the repaired bounds return the normalised slice itself -/
 theorem fixed_bounds_clip (s e st d : Int) (_hst : st ≠ 0) :
     dokSliceBoundsFixed (some (Gen.clipSlice s e st d).1) (some (Gen.clipSlice s e st d).2.1)
       (some (Gen.clipSlice s e st d).2.2) d = Gen.clipSlice s e st d := by
-  simp only [dokSliceBoundsFixed, Gen.clipSlice]
+  simp only [dokSliceBoundsFixed, Gen.clipSlice_eq, Ref.clipSlice]
   grind
 
 theorem clip_step (s e st d : Int) : (Gen.clipSlice s e st d).2.2 = st := by
-  simp only [Gen.clipSlice]
-  split <;> split <;> rfl
+  rw [Gen.clipSlice_eq, Ref.clipSlice_step]
 
 theorem normalizeSlice_step (a b c : Option Int) (d : Int) : (normalizeSlice a b c d).2.2 = c.getD 1 := by
-  simp only [normalizeSlice, clip_step]
-  cases c <;> cases a <;> cases b <;> simp [Gen.replaceNone, Gen.posifySlice] <;> (repeat' split) <;> rfl
+  rw [normalizeSlice_eq, Ref.normalizeSlice_step]
 
 theorem normalizeSlice_eq_clip (a b c : Option Int) (d : Int) :
     ∃ s e st, normalizeSlice a b c d = Gen.clipSlice s e st d ∧ st = c.getD 1 := by
